@@ -4,6 +4,18 @@ import json, subprocess
 
 CHECKS = {
  # id: (technique, level text, level note, design_ref)
+ "C01": ("bounded-exhaustive enumeration of inputs x configurations on the real DefaultSolver: all tiny programs (n<=2, m<=3, data in {-1,0,1}, P menu, full/triu) per cone list + planted strictly-feasible instances with <=1 (thorough <=2) data deviations, crossed with a <=1 (thorough <=2) deviation settings lattice incl. qdldl/faer backends; independent KKT/cone oracle on the user's data",
+         "Every program of the enumerated families is constructed and solved through the public API under every settings point inside the deviation bound (about 1e7 solves quick); whenever the verdict is Solved the returned (x,s,z) are re-evaluated on the user's P,q,A,b,cones with the documented termination test and textbook cone predicates. Exhaustive within the stated lattice, so a defect that needs a particular degenerate shape/sign pattern/configuration inside it cannot hide.",
+         "cone-membership and KKT evaluator in mc/src/oracle.rs are trusted; comparisons carry a 1e-6 relative slack plus the floating-point evaluation allowance 4(n+m+4)u*sum|terms|; PSD cones run on the harness's self-checking plain-Rust BLAS/LAPACK shims; decides the property for the enumerated lattice of problems/settings only", "DESIGN.md §5 C01"),
+ "C02": ("same exhaustive sweep as C01; oracle fires on PrimalInfeasible/DualInfeasible verdicts and re-evaluates the documented certificate test at the solver's scale using the final (tau,kappa) from the guarded iterate observer (cross-validated against public info.ktratio and variables.tau)",
+         "Every infeasibility verdict reached in the enumerated space (about 3e6 of 1e7 solves in quick) must carry NaN objectives, a certificate vector in the right cone, strict sign of b'z / q'x and the documented relative test recomputed from the returned vector and the user's data; certificates left in scaled coordinates or normalised by the wrong scalar fail.",
+         "cone-membership and KKT evaluator in mc/src/oracle.rs are trusted; comparisons carry a 1e-6 relative slack plus the floating-point evaluation allowance 4(n+m+4)u*sum|terms|; PSD cones run on the harness's self-checking plain-Rust BLAS/LAPACK shims; decides the property for the enumerated lattice of problems/settings only; the observer hook H3 is trusted after its cross-check", "DESIGN.md §5 C02"),
+ "C03": ("same exhaustive sweep as C01 (all terminal statuses that arise, incl. Almost*, MaxIterations, NumericalError, InsufficientProgress) + max_iter cut-offs; oracle recomputes objectives, normalised residuals, lengths and iteration bound from the returned vectors",
+         "For every execution in the enumerated space the reported obj_val, obj_val_dual, r_prim, r_dual, iterations, status and vector lengths are compared with an independent recomputation from the returned x,s,z and the user's data; Almost* verdicts are checked against the reduced tolerances on the returned point.",
+         "cone-membership and KKT evaluator in mc/src/oracle.rs are trusted; comparisons carry a 1e-6 relative slack plus the floating-point evaluation allowance 4(n+m+4)u*sum|terms|; PSD cones run on the harness's self-checking plain-Rust BLAS/LAPACK shims; decides the property for the enumerated lattice of problems/settings only", "DESIGN.md §5 C03"),
+ "C04": ("same exhaustive sweep as C01 with a panic/termination oracle + exhaustive off-by-one dimension mutations (documented construction panic expected)",
+         "Every enumerated well-formed program (incl. m=0, empty cones, singleton SOC/PSD, zero rows/columns, duplicate rows, 1e+-6 scalings) must construct and solve without panicking, end in a terminal status and respect max_iter; every single off-by-one dimension inconsistency must be rejected by the documented assertion.",
+         "cone-membership and KKT evaluator in mc/src/oracle.rs are trusted; comparisons carry a 1e-6 relative slack plus the floating-point evaluation allowance 4(n+m+4)u*sum|terms|; PSD cones run on the harness's self-checking plain-Rust BLAS/LAPACK shims; decides the property for the enumerated lattice of problems/settings only; hangs are bounded by max_iter (checked) and the per-space wall-clock cap", "DESIGN.md §5 C04"),
  "C12": ("bounded-exhaustive enumeration (all symmetric patterns n<=5 x all permutations x all D-sign vectors x 5 value/regularisation variants; every vector in {0..n}^n as perm; all small encodings; all update/scale/offset/refactor histories to depth 4) on the real QDLDLFactorisation, backward-error oracle in dense arithmetic + exact rational zero-pivot oracle",
          "Every case in the stated bound is factored, solved and (for histories) refactored by the real public clarabel::qdldl API; each result is judged from the returned L, D, Dinv, perm, inertia and counts against PAP'=LDL' elementwise with a 64*n*eps*|L||D||L'| bound, the regularisation rule, bitwise equality of refactor vs. fresh factorisation, and mandatory errors for every invalid permutation / structure / exactly-zero pivot.",
          "dense reference arithmetic in mc/src/props/c12.rs is trusted; growth is bounded by construction (diagonally dominant or +-1 data); n<=40 random matrices only as a labelled sampling supplement",
